@@ -124,11 +124,20 @@ def _absorb_padding(model, u, o, mt):
         # labels at this boundary stay on the side of the padding where
         # the implementation has them
         held = []
-        while new_toks and new_toks[-1].kind == "label" and new_pm[-1] == pr:
+        while new_toks and not new_toks[-1].is_bytes() and new_pm[-1] == pr:
             held.append((new_toks.pop(), new_pm.pop()))
         held.reverse()
-        before = [(lt, lp) for lt, lp in held if o.addr is None or (o.addr + pr) in realpos.get(lt.name, [o.addr + pr])]
-        after = [(lt, lp) for lt, lp in held if (lt, lp) not in before]
+
+        def stays(lt):
+            if lt.kind == "entry":
+                # marks the (aligned) block that follows the padding
+                return False
+            if lt.kind != "label":
+                return True
+            return o.addr is None or (o.addr + pr) in realpos.get(lt.name, [o.addr + pr])
+
+        before = [(lt, lp) for lt, lp in held if stays(lt)]
+        after = [(lt, lp) for lt, lp in held if not stays(lt)]
         for lt, lp in before:
             new_toks.append(lt)
             new_pm.append(lp)
@@ -219,12 +228,27 @@ def _equivalent_positions(mt, sname, u, i):
         o = mt.unit_obs.get(uu.id)
         toks = uu.toks[i:] if k == 0 else uu.toks
         base = i if k == 0 else 0
+        lo = mt.posmap[uu.id][base] if k == 0 and o is not None and base < len(mt.posmap[uu.id]) else 0
+        hi_pos = None
         for j, t in enumerate(toks):
             if t.is_bytes():
                 if o is not None and o.addr is not None:
                     out.add(o.addr + mt.posmap[uu.id][base + j])
+                    hi_pos = mt.posmap[uu.id][base + j]
+                if t.origin == "pad":
+                    # absorbed alignment padding is transparent
+                    if o is not None and o.addr is not None:
+                        out.add(o.addr + mt.posmap[uu.id][base + j] + len(t.b))
+                    hi_pos = None
+                    continue
                 found = True
                 break
+        if o is not None and o.addr is not None:
+            # validated padding on the way is transparent
+            for pr, pl in mt.pads.get(uu.id) or ():
+                if pr >= lo and (hi_pos is None or pr + pl <= hi_pos):
+                    out.add(o.addr + pr)
+                    out.add(o.addr + pr + pl)
         if found:
             break
     # to the left
@@ -237,6 +261,10 @@ def _equivalent_positions(mt, sname, u, i):
             if t.is_bytes():
                 if o is not None and o.addr is not None:
                     out.add(o.addr + mt.posmap[uu.id][j] + len(t.b))
+                if t.origin == "pad":
+                    if o is not None and o.addr is not None:
+                        out.add(o.addr + mt.posmap[uu.id][j])
+                    continue
                 found = True
                 break
         if found:
@@ -1128,10 +1156,10 @@ def _check_c08(mt, sess):
         bproc, bstate = base
         p1, s1 = st[a]
         own = _patch_cfi(sess, t)
-        if bool(p1) != bool(bproc):
-            # structural cause: another insertion at the end of the block
-            # right in front of this one (the .cfi_endproc travels)
-            after_end_insert = False
+        # structural cause of F36: another insertion at the end of the block
+        # right in front of this one (the .cfi_endproc travels)
+        after_end_insert = False
+        if True:
             if loc[1] == 0 and loc[0] in pre_hist["keys"]:
                 bi = pre_hist["keys"].index(loc[0])
                 for oi2, (k2, o2, l2) in sess.resolved.items():
@@ -1139,6 +1167,7 @@ def _check_c08(mt, sess):
                         b2 = pre_hist["keys"].index(k2)
                         if b2 < bi and o2 == pre_hist["blk"][b2]["size"] and pre_hist["blk"][b2]["addr"] + o2 == pre_hist["blk"][bi]["addr"]:
                             after_end_insert = True
+        if bool(p1) != bool(bproc):
             raise core.Violation(
                 "C08",
                 "patch-state",
@@ -1156,7 +1185,7 @@ def _check_c08(mt, sess):
                 "C08",
                 "patch-state",
                 {"token": t.id, "state": _brief(s1), "expected": _brief(want), "own_adjust": own, "insertion": list(loc)},
-                {"kind": "state", "own_cfi": own is not None, "field": _diff_field(s1, want)},
+                {"kind": "state", "own_cfi": own is not None, "field": _diff_field(s1, want), "after_end_insert": after_end_insert},
             )
 
 
